@@ -43,6 +43,7 @@ type program struct {
 	ObsEvery int      `json:"obs_every"`
 	Pattern  string   `json:"pattern"`
 	DstT     int      `json:"dst_T"` // table size of the store that receives transferred tables (0: 1 MiB); a small one refuses large entries
+	Walk     int      `json:"walk"`  // > 0: a cursor walk with this COUNT is under way all the time, one page after every operation
 }
 
 const minEntry = 38 // 29 bytes of metadata + 1 byte key + 8 bytes carrying the value id
@@ -302,6 +303,39 @@ func (r *runner) run(p *program, seq int) {
 		obsEvery = 1
 	}
 	maxTables, moved := 1, false
+	// a cursor walk that is interleaved with the program: one page after every operation; when it ends the next begins.
+	// The trace specification knows which keys were present all the time (wbegin / wend events).
+	var wkeys []string
+	wcursor, wcalls, walking := uint64(0), 0, false
+	wpage := func(final bool) {
+		if p.Walk <= 0 {
+			return
+		}
+		for {
+			if !walking {
+				if final {
+					return
+				}
+				r.w.Emit(trace.Ev{"t": "wbegin", "c": p.Walk})
+				wkeys, wcursor, wcalls, walking = []string{}, 0, 0, true
+			}
+			var err error
+			wcursor, err = s.Scan(wcursor, p.Walk, func(e storage.Entry) bool {
+				wkeys = append(wkeys, e.Key())
+				return true
+			})
+			wcalls++
+			limit := 4*(len(p.Keys)+maxTables) + 50 + 2*len(p.Ops)
+			if err != nil || wcursor == 0 || wcalls > limit {
+				r.w.Emit(trace.Ev{"t": "wend", "keys": wkeys, "fin": err == nil && wcursor == 0, "calls": wcalls, "err": errName(err)})
+				walking = false
+				r.evals++
+			}
+			if !final || !walking {
+				return
+			}
+		}
+	}
 	for n, o := range p.Ops {
 		r.evals++
 		switch o.Op {
@@ -410,10 +444,12 @@ func (r *runner) run(p *program, seq int) {
 		if st := s.Stats(); st.NumTables > maxTables {
 			maxTables = st.NumTables
 		}
+		wpage(false)
 		if (n+1)%obsEvery == 0 || n == len(p.Ops)-1 || o.Op == "compactall" {
 			r.observe(p, s, dst, hk)
 		}
 	}
+	wpage(true) // the walk that is under way is brought to its end
 	b, _ := json.Marshal(p.Ops)
 	key := fmt.Sprintf("%d/%x", p.T, sha1.Sum(b))
 	if !r.distinct[key] {
@@ -441,6 +477,9 @@ func randomProgram(rng *rand.Rand, n int) *program {
 	nk := 3 + rng.Intn(10)
 	keys := keysN(nk)
 	p := &program{Src: "random", T: T, IdleMs: []int{0, 3600000}[rng.Intn(2)], Keys: keys, Pattern: "^[abc]"}
+	if rng.Intn(3) == 0 {
+		p.Walk = []int{1, 2, 3, 10}[rng.Intn(4)]
+	}
 	if T >= 1024 && rng.Intn(3) == 0 {
 		// the receiver of transferred tables has smaller tables than the sender: it cannot store the larger entries, the
 		// import must fail and the sender must keep its table
